@@ -299,7 +299,9 @@ def u_problems(c):
         is_begin = z3.PrefixOf(z3.StringVal("#loop_"), t)
         suffix = z3.If(is_begin, z3.SubString(t, 6, z3.Length(t) - 6), z3.SubString(t, 9, z3.Length(t) - 9))
         loop_ok = z3.Or(suffix == z3.StringVal("a"), suffix == z3.StringVal("b"))
-        bad = z3.If(is_loop, z3.Not(loop_ok), z3.If(is_hash, z3.Not(valid), z3.Or(z3.Not(in_table), z3.Not(ce(t)))))
+        # a dotted path names a variable and attributes of it: `a.` or `a..b` name nothing (such a capture could never fire)
+        empty_part = z3.Or(z3.SuffixOf(z3.StringVal("."), t), z3.Contains(t, z3.StringVal("..")))
+        bad = z3.If(is_loop, z3.Not(loop_ok), z3.If(is_hash, z3.Not(valid), z3.Or(z3.Not(in_table), empty_part, z3.Not(ce(t)))))
         c.prove("problems/reported-iff-unknown-meta-variable-or-missing-variable-or-category-mismatch", z3.And(n <= 1, (n == 1) == bad) if True else False)
     st, r = run(it, it.get_global(S, "verify"), [sel])
     c.prove("verify/SelectorError-iff-problems", (st == "raise" and exc_name(r) == "SelectorError") if n else (st == "ok" and r is sel))
@@ -407,6 +409,9 @@ EQUIV = [
     ("f($xD) > y", "f(* as xD) > y", None),
     ("f(A, $xD)", "f(A, * as xD)", None),
     ("f(A)=cc", "f(A, #value=cc)", None),
+    # the focus may stand in ANY of the nested calls of a call, not only in the last one
+    ("a(b > X, d(e))", "a(b(!X), d(e))", "x"),
+    ("a(b(j), d(!X), g(h))", "a(b(j), d > X, g(h))", "x"),
     # the two spellings of a generic capture stay the same thing when they carry the focus mark
     ("f > $xD", "f(!* as xD)", "$x"),
     ("f(A, !$xD)", "f(A, !* as xD)", "$x"),
